@@ -10,10 +10,11 @@
 (* created after the recovery gets fresh ids).                              *)
 (***************************************************************************)
 EXTENDS DvidPersist
-NextDel == Next \/ StartDeleteRepo
+\* (StartDeleteRepo is part of Next when MaxAdmin > 0)
+NextDel == Next
 SpecDel == Init /\ [][NextDel]_vars
 \* (vacuity guard, evaluated by the harness through the state count of a second run: with the
 \*  blob deleted LAST the first invariant fails - see c04_deleterepo.go)
 DeleteRepoProgBlobLast(r) ==
-    <<[k |-> "unmapRepo", r |-> r]>> \o PutCaches \o <<[k |-> "wDelREPO", r |-> r], [k |-> "ack"]>>
+    <<[k |-> "dropRepo", r |-> r]>> \o PutCaches \o <<[k |-> "wDelREPO", r |-> r], [k |-> "ack"]>>
 =============================================================================
